@@ -1126,7 +1126,7 @@ func Retract(vm *VM, t Term, k Cont, env *Env) *Promise {
 			return Unify(vm, t, raw, func(env *Env) *Promise {
 				// Other updates since the call might have moved or removed the clause. So we look for the clause itself.
 				for j := range u.clauses {
-					if id(u.clauses[j].raw) == id(c.raw) {
+					if sameClause(u.clauses[j], c) {
 						u.clauses, u.clauses[len(u.clauses)-1] = append(u.clauses[:j], u.clauses[j+1:]...), clause{}
 						break
 					}
@@ -1136,6 +1136,15 @@ func Retract(vm *VM, t Term, k Cont, env *Env) *Promise {
 		}
 	}
 	return Delay(ks...)
+}
+
+// sameClause tells whether a and b are copies of one stored clause. Every compiled clause owns its bytecode, so that
+// tells duplicates apart even if their terms are one and the same atom (foo. foo.).
+func sameClause(a, b clause) bool {
+	if len(a.bytecode) > 0 && len(b.bytecode) > 0 {
+		return &a.bytecode[0] == &b.bytecode[0]
+	}
+	return id(a.raw) == id(b.raw)
 }
 
 // Abolish removes the procedure indicated by pi from the database.
